@@ -767,8 +767,11 @@ closes (`msgToks`: ReportData struct, [subscription id], AttributeReports array 
 report, EventReports array, structural array ends, trailer with the end of the array that is still
 open + MoreChunkedMessages, or [SuppressResponse], revision, struct end) form ONE top-level struct in
 which every container is closed by its own `end_container` and the struct by the last token — with or
-without subscription id, with or without SuppressResponse.  (The attribute reports of a message are
-complete reports at byte level, also after a rewind + send: `cursor_messages`.) -/
+without subscription id, with or without SuppressResponse.  This is container nesting DERIVED FROM THE
+FLAGS: `msgToks` is balanced by construction, the only non-definitional content is that every non-final
+(MoreChunks) message has an open array for its trailer to close (`more → a ∨ e`).  Byte-level
+completeness of the reports of a message: `cursor_messages` (attributes only); event reports, the inner
+encoding of a report and tag order: decoding oracle on the real chunks only. -/
 theorem messages_wellformed {c : Cfg} {r : Req} {cs : List ChunkOut} (hw : c.WF) (h : respond c r = .ok cs) :
     ∀ ch ∈ cs, ∃ a e, (a = true → r.attrs.isSome = true) ∧ (e = true → r.events.isSome = true) ∧
       Accounts c a e ch ∧ ∀ subId suppress, wellFormed (msgToks subId suppress a e ch) = true := by
